@@ -73,7 +73,11 @@ class FakeClient:
         return fut
 
     def scatter(self, data, asynchronous=True, hash=False, **kw):
-        assert isinstance(data, list)
+        # like distributed: a list / tuple is scattered item by item (one future per item, same container type);
+        # there is nothing to place for an empty one
+        assert isinstance(data, (list, tuple)), "the fake client only scatters sequences (streamz boxes every element in a list)"
+        if len(data) == 0:
+            raise ValueError("scatter: no data to place (empty sequence)")
         out = []
         for x in data:
             fut = FakeFuture(len(self.futures), 'scatter', done=True, value=x)
@@ -81,7 +85,7 @@ class FakeClient:
             self.log.append(('scatter', fut.id))
             out.append(fut)
         res = asyncio.get_event_loop().create_future()
-        res.set_result(out)
+        res.set_result(out if isinstance(data, list) else tuple(out))
         return res
 
     def gather(self, obj, asynchronous=True, **kw):
